@@ -1,11 +1,24 @@
-import MxModel.Proofs.IOSpecMain
+import MxModel.Proofs.IOSpecClosed
 /-!
 # C18 – an IOSpec lives exactly as long as a reference to its value
 
 Property theorems only (lemmas: `Proofs/IOSpec*.lean`; model: `Kernels/IOSpec.lean`).  The model
-is bug-faithful: four behaviours of modelx break the property.  Each is a decidable predicate on
-(state, operation) – `trigCellsName`, `trigDoubleSpec`, `trigDirtyDelete`, `trigUpdateOnto` – and
-`AllClean kw st ops` says that no operation of a history meets any of them.  The full statements
+is bug-faithful: six behaviours of modelx break the property.  Each is a decidable predicate on
+(state, operation) – `trigCellsName`, `trigDoubleSpec`, `trigDirtyDelete`, `trigUpdateOnto`,
+`trigClosedNew`, `trigPathAlias` – and `AllClean kw st ops` says that no operation of a history
+meets any of them.
+
+Closed models are inside every quantifier: `close` only deletes the model's specs and takes it out
+of the registry, its handles keep working, and the model performs every operation on a closed model
+as on an open one (only handles of deleted spaces, and names of models/spaces that never existed,
+are answered `dead` with the state unchanged - which is what `DeletedObjectError` does).  What
+`close` promises – the IOManager holds nothing of a closed model – is `closed_models_hold_no_spec_partial`;
+it fails for `new_pandas` through the handle of a closed model (`close_releases_fails_closed_model`).
+
+File locations: `Spec.path` is the io key as the code holds it (`pathlib`: `./a.csv` = `a.csv`,
+but `sub/../a.csv` ≠ `a.csv`); `normPath` gives the file it denotes.  `keys_distinct` is about keys
+(full strength), `locations_distinct_partial` about files (`LocN`), `locations_distinct_fails_path_alias`
+is the witness that the latter needs its hypothesis.  The full statements
 are false of the model and of modelx: every `…_fails_…` theorem below is the negation of a full
 statement, with the witness history that is also replayed on the implementation
 (`corpus/C18/known-*.json`, known findings `C18-…`).
@@ -61,18 +74,19 @@ theorem ioInv_of_rinv {st : St} (h : RInv st) : IOInv st := by
 creating models, spaces and cells, `new_pandas` (accepted or rejected), assignment of any value to
 any name (new name, rebinding, a second name for a value, names of cells and spaces, invalid
 names), deletion of references and of spaces, `update_pandas` in place and with a new object,
-sheet changes, `del_spec`, `close`, on any model or space, existing or not – that avoids the four
-triggers, the statement holds. -/
+sheet and path changes, `del_spec`, `close`, on any model or space, open, closed, deleted or never
+created – that avoids the six triggers, the statement holds (for every model, closed ones
+included: a closed model has no spec, and whatever is created through its handles afterwards is
+tracked like anything else). -/
 theorem spec_iff_referenced_partial (kw : List String) (ops : List Op) (h : AllClean kw {} ops) :
     IOInv (run kw {} ops) :=
   ioInv_of_rinv (rinv_run kw ops {} rinv_empty h)
 
 /-- one step, from any state in which the statement's invariant holds -/
 theorem spec_iff_referenced_step (kw : List String) (st : St) (op : Op) (h : RInv st)
-    (k1 : trigCellsName st op = false) (k2 : trigDoubleSpec st op = false)
-    (k5 : trigDirtyDelete st op = false) (k6 : trigUpdateOnto st op = false) :
+    (hc : clean st op = true) :
     IOInv (step kw st op) :=
-  ioInv_of_rinv (rinv_step kw h (by simp [clean, k1, k2, k5, k6]))
+  ioInv_of_rinv (rinv_step kw h hc)
 
 /-- **A spec does not die before the last reference to its value (partial).**  After a clean
 history, an operation other than `del_spec`/`close` that avoids the four triggers – in particular
@@ -98,12 +112,21 @@ theorem rejected_creation_leaves_nothing (kw : List String) (ops : List Op) (o :
     (newPandas kw (run kw {} ops) o n path csv sheet data).1.cells = (run kw {} ops).cells :=
   newPandas_rejected (sidOK_run kw ops {} ⟨by simp [sp], by simp [sp]⟩) he
 
-/-- **locations_distinct** (full strength: every history, clean or not).  Two different specs of
-one file of one model: the file is an Excel file, both name a sheet, the names differ (a csv file,
-and a sheet-less spec, are never shared) – whatever was created, updated, deleted, and whatever
-sheets were set. -/
-theorem locations_distinct (kw : List String) (ops : List Op) : Loc (run kw {} ops).specs :=
+/-- **keys_distinct** (full strength: every history, clean or not).  Two different specs under
+one io KEY of one model (the path as `pathlib` compares it): the file is an Excel file, both name a
+sheet, the names differ (a csv file, and a sheet-less spec, are never shared) – whatever was
+created, updated, deleted, moved by the path setter, and whatever sheets were set. -/
+theorem keys_distinct (kw : List String) (ops : List Op) : Loc (run kw {} ops).specs :=
   loc_run kw ops {} ⟨by simp [sp], by simp [sp]⟩ (by intro σ hσ; cases hσ)
+
+/-- **locations_distinct (partial: `AllClean`, of which only `trigPathAlias` is used).**  "Two specs
+never claim the same file location": two different specs of one model whose paths denote the same
+FILE below the model's folder (`normPath`: `a.csv`, `./a.csv`, `sub/../a.csv`) are two sheets of one
+Excel file with different names.  Holds as long as no `new_pandas` / path setter asks for a key
+that another key of the model already denotes in another spelling. -/
+theorem locations_distinct_partial (kw : List String) (ops : List Op) (h : AllClean kw {} ops) :
+    LocN (run kw {} ops).specs :=
+  locN_of (keys_distinct kw ops) (noAlias_run kw ops {} (by intro σ hσ; cases hσ) h)
 
 /-- **close_releases (partial).**  After a clean history, closing an open or unknown model
 succeeds, leaves no spec (hence no io) of that model in the IOManager, and the model is gone. -/
@@ -112,6 +135,17 @@ theorem close_releases_partial (kw : List String) (ops : List Op) (m : Nat) (h :
     (∀ σ ∈ (closeModel (run kw {} ops) m).1.specs, σ.group ≠ m) ∧
     m ∉ (closeModel (run kw {} ops) m).1.models :=
   closeModel_releases (rinv_run kw ops {} rinv_empty h) m
+
+/-- **closed_models_hold_no_spec (partial).**  At every point of a clean history – not only right
+after `close` – the IOManager holds no spec (hence no io) of any closed model, whatever was done
+through the handles of closed models in between (assignments, deletions, `update_pandas`, a second
+`close`, new spaces and cells …) except `new_pandas` (`trigClosedNew`). -/
+theorem closed_models_hold_no_spec_partial (kw : List String) (ops : List Op) (h : AllClean kw {} ops) :
+    ∀ σ ∈ (run kw {} ops).specs, σ.group ∉ (run kw {} ops).closed := by
+  intro σ hσ hin
+  have := closedFree_run kw ops {} rinv_empty (by intro σ hσ; cases hσ) h σ hσ
+  rw [List.contains_eq_mem, decide_eq_false_iff_not] at this
+  exact this hin
 
 /-! ## The full statements fail: one witness per known finding -/
 
@@ -165,6 +199,29 @@ theorem close_releases_fails_double_spec :
   have := h [] wDoubleSpec 0
   revert this; decide +kernel
 
+/-- C18-closed-model-new-spec -/
+def wClosedNew : List Op :=
+  setup ++ [.close 0, .newPandas s1 "x" "a.csv" true none (.df 0), .close 0]
+/-- C18-path-alias -/
+def wPathAlias : List Op :=
+  setup ++ [.newPandas s1 "x" "a.csv" true none (.df 0), .newPandas s1 "y" "sub/../a.csv" true none (.df 1)]
+
+/-- `new_pandas` through the handle of a space of a CLOSED model is accepted; the spec (and its
+io) stays, also after closing again -/
+theorem close_releases_fails_closed_model :
+    ¬ ∀ (kw : List String) (ops : List Op), ∀ σ ∈ (run kw {} ops).specs, σ.group ∉ (run kw {} ops).closed := by
+  intro h
+  have := h [] wClosedNew
+  revert this; decide +kernel
+
+/-- `a.csv` and `sub/../a.csv` are different keys and the same file: two csv specs on one file -/
+theorem locations_distinct_fails_path_alias :
+    ¬ ∀ (kw : List String) (ops : List Op), LocN (run kw {} ops).specs := by
+  intro h
+  have := h [] wPathAlias ⟨0, 0, "a.csv", true, none, .df 0⟩ (by decide +kernel)
+    ⟨1, 0, "sub/../a.csv", true, none, .df 1⟩ (by decide +kernel) rfl (by decide +kernel) (by decide)
+  exact absurd this.1 (by decide)
+
 /-! ## Non-vacuity -/
 
 /-- a clean history with sharing across spaces and models, rebinding, deletion, both forms of
@@ -185,7 +242,8 @@ example : AllClean [] {} demo := by decide +kernel
 example : ((run [] {} demo).specs.map (fun σ => (σ.val, σ.path, σ.sheet))) =
     [(.df 1, "b.xlsx", some "s2")] := by decide +kernel
 example : IOInv (run [] {} demo) := spec_iff_referenced_partial [] demo (by decide +kernel)
-example : Loc (run [] {} demo).specs := locations_distinct [] demo
+example : Loc (run [] {} demo).specs := keys_distinct [] demo
+example : LocN (run [] {} demo).specs := locations_distinct_partial [] demo (by decide +kernel)
 /-- the rejected creation of `demo` is really rejected -/
 example : (match (stepR [] (run [] {} (demo.take 9)) (demo.getD 9 (.close 0))).2 with
     | .error .value => true
@@ -195,6 +253,31 @@ example : (match (stepR [] (run [] {} (demo.take 9)) (demo.getD 9 (.close 0))).2
 example : ((run [] {} (demo.take 16)).specs.length, (run [] {} (demo.take 17)).specs.length) = (2, 1) := by
   decide +kernel
 example : (closeModel (run [] {} demo) 0).2 = .ok () := (close_releases_partial [] demo 0 (by decide +kernel)).1
+
+/-- a clean history that goes on through the handles of a closed model (assignment, a second name,
+`update_pandas`, deletion, a new space, closing again), uses three spellings of one path (the
+second `new_pandas` is refused: `./b.xlsx` IS the key `b.xlsx`), and moves a file with the path
+setter (refused onto a key in use, accepted onto a free one) -/
+def demo2 : List Op :=
+  setup ++ [.newModel 1, .newSpace 1 1 "S",
+    .newPandas s1 "x" "b.xlsx" false none (.df 0),
+    .newPandas s1 "y" "./b.xlsx" false none (.df 1),             -- rejected: same key, sheet-less
+    .newPandas s1 "y" "sub/./c.csv" true none (.df 1),
+    .setPath 0 (.df 1) "b.xlsx",                                  -- rejected: key in use
+    .setPath 0 (.df 1) "sub//d.csv",
+    .close 0, .bind s1 "z" (.df 0), .bind ⟨0, 0⟩ "w" (.df 0), .update 0 (.df 0) (.df 2),
+    .del s1 "z", .newSpace 0 2 "T", .bind ⟨0, 2⟩ "x" (.df 3), .close 0,
+    .newPandas ⟨1, 1⟩ "x" "b.xlsx" false none (.df 0)]
+
+example : AllClean [] {} demo2 := by decide +kernel
+example : ((run [] {} (demo2.take 9)).specs.map (fun σ => (σ.val, σ.path)),
+    (run [] {} demo2).specs.map (fun σ => (σ.group, σ.val, σ.path)), (run [] {} demo2).closed) =
+    ([(.df 0, "b.xlsx"), (.df 1, "sub/d.csv")], [(1, .df 0, "b.xlsx")], [0]) := by decide +kernel
+example : ((run [] {} demo2).refs.filter (fun r => r.owner.model = 0)).map (fun r => (r.owner.space, r.name, r.val)) =
+    [(1, "y", .df 1), (0, "w", .df 2), (1, "x", .df 2), (2, "x", .df 3)] := by decide +kernel
+example : IOInv (run [] {} demo2) := spec_iff_referenced_partial [] demo2 (by decide +kernel)
+example : ∀ σ ∈ (run [] {} demo2).specs, σ.group ∉ (run [] {} demo2).closed :=
+  closed_models_hold_no_spec_partial [] demo2 (by decide +kernel)
 
 /-! ## The repaired defects as positive examples -/
 
